@@ -114,21 +114,27 @@ package client
 //@ spec func wraps(s *schedule) bool = minOfDay(s.endTime) <= minOfDay(s.startTime)
 //@ spec func builtSet(s *schedule, t time.Time, trs []timeRange) bool = forall x timeRange :: memberOf(trs, x) <==> (winRange(s, d0(t), x) || (wraps(s) && winRange(s, d0(t)-1, x)))
 
+// anyDay(D) is true for every D (axiom); it only gives the existential over days a trigger term
+//@ spec func anyDay(D int) bool
+//@ axiom anyDay_true: forall D int :: anyDay(D)
+//@ spec func timesValid(s *schedule) bool = hmValid(s.startTime) && hmValid(s.endTime)
 //@ func (*schedule).activeForTime
 //@   props C14
-//@   requires s != nil && hmValid(s.startTime) && hmValid(s.endTime)
-//@   assert [C14] ranges-built: rangesBuilt(s, t, timeRanges) at "timeRanges.filterWeekdays(s.weekdays)"
-//@   assert [C14] ranges-set: builtSet(s, t, timeRanges) && allUTC(timeRanges) at "timeRanges.filterWeekdays(s.weekdays)"
-//@   assert [C14] weekdays-utc: allUTC(timeRanges) at "timeRanges.filterDates(s.dates)"
-//@   assert [C14] weekdays-set: forall x timeRange :: memberOf(timeRanges, x) <==> ((winRange(s, d0(t), x) || (wraps(s) && winRange(s, d0(t)-1, x))) && wdIn(s.weekdays, startDay(x))) at "timeRanges.filterDates(s.dates)"
-//@   assert [C14] dates-set: forall x timeRange :: memberOf(timeRanges, x) <==> ((winRange(s, d0(t), x) || (wraps(s) && winRange(s, d0(t)-1, x))) && wdIn(s.weekdays, startDay(x)) && dateIn(s.dates, startDay(x))) at "timeRanges.in(t)"
-//@   assert [C14] day-of-window-0: forall x timeRange :: winRange(s, d0(t), x) ==> startDay(x) == d0(t) && (trIn(x, t) <==> (winStart(s, d0(t)) <= ns(t) && ns(t) < winEnd(s, d0(t)))) at "timeRanges.in(t)"
-//@   assert [C14] day-of-window-1: forall x timeRange :: winRange(s, d0(t)-1, x) ==> startDay(x) == d0(t)-1 && (trIn(x, t) <==> (winStart(s, d0(t)-1) <= ns(t) && ns(t) < winEnd(s, d0(t)-1))) at "timeRanges.in(t)"
-//@   assert [C14] final-set: forall x timeRange :: memberOf(timeRanges, x) <==> ((winRange(s, d0(t), x) && dayAllowed(s, d0(t))) || (wraps(s) && winRange(s, d0(t)-1, x) && dayAllowed(s, d0(t)-1))) at "timeRanges.in(t)"
-//@   assert [C14] no-wrap-no-yesterday: !wraps(s) ==> !(winStart(s, d0(t)-1) <= ns(t) && ns(t) < winEnd(s, d0(t)-1)) at "timeRanges.in(t)"
-//@   assert [C14] only-two-days: forall D int :: winStart(s, D) <= ns(t) && ns(t) < winEnd(s, D) ==> D == d0(t) || D == d0(t)-1 at "timeRanges.in(t)"
-//@   ensures [C14] candidates: err == nil ==> (res0 <==> (inWindow(s, t, d0(t)) || inWindow(s, t, d0(t) - 1)))
-//@   ensures [C14] window: err == nil ==> (res0 <==> (exists D int :: inWindow(s, t, D)))
+//@   requires s != nil
+//@   assert [C14] ranges-built: timesValid(s) ==> (rangesBuilt(s, t, timeRanges)) at "timeRanges.filterWeekdays(s.weekdays)"
+//@   assert [C14] ranges-set: timesValid(s) ==> (builtSet(s, t, timeRanges) && allUTC(timeRanges)) at "timeRanges.filterWeekdays(s.weekdays)"
+//@   assert [C14] weekdays-utc: timesValid(s) ==> (allUTC(timeRanges)) at "timeRanges.filterDates(s.dates)"
+//@   assert [C14] weekdays-set: timesValid(s) ==> (forall x timeRange :: memberOf(timeRanges, x) <==> ((winRange(s, d0(t), x) || (wraps(s) && winRange(s, d0(t)-1, x))) && wdIn(s.weekdays, startDay(x)))) at "timeRanges.filterDates(s.dates)"
+//@   assert [C14] dates-set: timesValid(s) ==> (forall x timeRange :: memberOf(timeRanges, x) <==> ((winRange(s, d0(t), x) || (wraps(s) && winRange(s, d0(t)-1, x))) && wdIn(s.weekdays, startDay(x)) && dateIn(s.dates, startDay(x)))) at "timeRanges.in(t)"
+//@   assert [C14] day-of-window-0: timesValid(s) ==> (forall x timeRange :: winRange(s, d0(t), x) ==> startDay(x) == d0(t) && (trIn(x, t) <==> (winStart(s, d0(t)) <= ns(t) && ns(t) < winEnd(s, d0(t))))) at "timeRanges.in(t)"
+//@   assert [C14] day-of-window-1: timesValid(s) ==> (forall x timeRange :: winRange(s, d0(t)-1, x) ==> startDay(x) == d0(t)-1 && (trIn(x, t) <==> (winStart(s, d0(t)-1) <= ns(t) && ns(t) < winEnd(s, d0(t)-1)))) at "timeRanges.in(t)"
+//@   assert [C14] final-set: timesValid(s) ==> (forall x timeRange :: memberOf(timeRanges, x) <==> ((winRange(s, d0(t), x) && dayAllowed(s, d0(t))) || (wraps(s) && winRange(s, d0(t)-1, x) && dayAllowed(s, d0(t)-1)))) at "timeRanges.in(t)"
+//@   assert [C14] no-wrap-no-yesterday: timesValid(s) ==> (!wraps(s) ==> !(winStart(s, d0(t)-1) <= ns(t) && ns(t) < winEnd(s, d0(t)-1))) at "timeRanges.in(t)"
+//@   assert [C14] day-witnesses: anyDay(d0(t)) && anyDay(d0(t)-1) at "timeRanges.in(t)"
+//@   assert [C14] only-two-days: timesValid(s) ==> (forall D int :: anyDay(D) && winStart(s, D) <= ns(t) && ns(t) < winEnd(s, D) ==> D == d0(t) || D == d0(t)-1) at "timeRanges.in(t)"
+//@   ensures [C14] candidates: err == nil && timesValid(s) ==> (res0 <==> (inWindow(s, t, d0(t)) || inWindow(s, t, d0(t) - 1)))
+//@   ensures [C14] window-sound: err == nil && timesValid(s) && res0 ==> (exists D int :: anyDay(D) && inWindow(s, t, D))
+//@   ensures [C14] window-complete: err == nil && timesValid(s) && (exists D int :: anyDay(D) && inWindow(s, t, D)) ==> res0
 
 // ---- msg.go: subject parsers (C12: never crash on any subject / payload) ------------------
 //@ func DecodeNodePointsMsg
